@@ -20,6 +20,12 @@ class C06(ProgProp):
             nv = self.variants_quick if tier == "quick" else self.variants_thorough
             return {"spec": spec, "variants": [{"conv": ["call", "value", "wrapped"][i % 3], "prio": g.gen_prio(rng, spec["kinds"])}
                                                for i in range(nv)]}
+        if rng.random() < 0.06:
+            from .. import gen as g
+            spec = g.motif_exit_fault(rng)
+            nv = self.variants_quick if tier == "quick" else self.variants_thorough
+            return {"spec": spec, "variants": [{"conv": ["call", "value", "wrapped"][i % 3], "prio": g.gen_prio(rng, spec["kinds"])}
+                                               for i in range(nv)]}
         case = ProgProp.gen(self, rng, tier, k)
         if rng.random() < 0.15:
             # a context whose resume() raises when its suspended task is resumed: the task fails;
